@@ -20,6 +20,7 @@
 #ifndef DATASKETCHES_SERDE_HPP_
 #define DATASKETCHES_SERDE_HPP_
 
+#include <algorithm>
 #include <cstring>
 #include <iostream>
 #include <memory>
@@ -162,8 +163,8 @@ struct serde<std::string> {
         is.read((char*)&length, sizeof(length));
         if (!is.good()) { break; }
         std::string str;
-        str.reserve(length);
-        for (uint32_t j = 0; j < length; j++) {
+        str.reserve(std::min<uint32_t>(length, 1 << 16)); // a corrupt length must not cause a huge allocation
+        for (uint32_t j = 0; j < length && is.good(); j++) {
           str.push_back(static_cast<char>(is.get()));
         }
         if (!is.good()) { break; }
